@@ -481,7 +481,7 @@ class FsStub(Model):
         raise Unsupported('FieldSet.' + name)
 
 
-@unit('C03', 'create-dimensions.species-of-the-data', FUNCS, replay='contracts.C03:replay')
+@unit('C03', 'create-dimensions.species-slots', FUNCS, replay='contracts.C03:replay')
 def create_dimensions(h):
     I, Species, TM, sp, tm, dm, Dimensions = enums(h)
     keys = ['empty'] + list(SPECIES_LISTS)
@@ -494,12 +494,17 @@ def create_dimensions(h):
     ds = DimDataset()
     f = h.func('AEIC.trajectories.store:_create_dimensions')
     h.I.call_function(f, [ds, {'fs'}, species], {}, force_body=True)
-    h.ensure('species-dimension-has-exactly-the-species-of-the-data', ds.dims.get('species') == len(species),
-             note=f'dimension length {ds.dims.get("species")} for species list {[m.name for m in species]}')
+    # what the round trip needs (writer and reader both locate a species by its position in this coordinate): every
+    # species of the data has a slot, and the coordinate names exactly one distinct species per slot of the dimension.
+    # (Whether species that are not in the data also get a slot is not the property's business.)
     names = ds.vars.get('species')
-    h.ensure('species-coordinate-lists-them-in-order',
-             names is not None and [names.items.get(i) for i in range(len(species))] == [m.name for m in species]
-             and len(names.items) == len(species))
+    listed = [names.items.get(i) for i in range(len(names.items))] if names is not None else []
+    h.ensure('species-dimension-has-a-slot-for-every-species-of-the-data', names is not None and all(m.name in listed for m in species),
+             note=f'coordinate {listed} for species list {[m.name for m in species]}')
+    valid = {m.name for m in sp.values()}
+    h.ensure('species-coordinate-names-one-distinct-species-per-slot',
+             names is not None and ds.dims.get('species') == len(listed) and len(set(listed)) == len(listed) and all(x in valid for x in listed),
+             note=f'dimension length {ds.dims.get("species")}, coordinate {listed}')
     if with_tm:
         h.ensure('thrust-mode-dimension-covers-all-modes', ds.dims.get('thrust_mode') == len(tm))
 
